@@ -48,6 +48,97 @@ theorem bare_key_true (std : Stdlib) (o : Opts) (arg : String) (h : splitEq arg 
     flagLoad std o true arg = (newFrom o (.map [(arg, .bool true)])).bind (fun c => .ok (some c)) := by
   simp [flagLoad, h]
 
+/-! ### the statement as a whole, for any loader -/
+
+/-- what the statement says the flag holds: the configs of the arguments before the first failing one, merged in order
+with the flag's options, and that first failure -/
+def specRun (o : Opts) : Val → List (Outcome (Option Val)) → Val × Option Err
+  | cfg, [] => (cfg, none)
+  | cfg, .ok none :: r => specRun o cfg r
+  | cfg, .ok (some x) :: r => specRun o (mergeCfg o cfg x) r
+  | cfg, .err e :: _ => (cfg, some e)
+  | cfg, .panic s :: _ => (cfg, some { reason := .other, msg := some s })
+  | cfg, .fuel :: _ => (cfg, some { reason := .other, msg := some "fuel" })
+
+theorem collect_sticky (o : Opts) (c : Collector) (e : Err) (rs : List (Outcome (Option Val))) (h : c.err = some e) :
+    collect o c rs = c := by
+  induction rs with
+  | nil => rfl
+  | cons r rest ih =>
+    simp only [collect, List.foldl_cons]
+    have : collectorAdd o c r = c := by simp [collectorAdd, h]
+    rw [this]
+    exact ih
+
+/-- any sequence of Set calls, any loader: the collector holds exactly what the statement describes -/
+theorem collect_eq_spec (o : Opts) (rs : List (Outcome (Option Val))) :
+    ∀ (c : Collector), c.err = none →
+      collect o c rs = { config := (specRun o c.config rs).1, err := (specRun o c.config rs).2 } := by
+  induction rs with
+  | nil => intro c hc; cases c; simp_all [collect, specRun]
+  | cons r rest ih =>
+    intro c hc
+    simp only [collect, List.foldl_cons]
+    cases r with
+    | ok v =>
+      cases v with
+      | none =>
+        have : collectorAdd o c (.ok none) = c := by simp [collectorAdd, hc]
+        rw [this]; exact ih c hc
+      | some x =>
+        have : collectorAdd o c (.ok (some x)) = { c with config := mergeCfg o c.config x } := by simp [collectorAdd, hc]
+        rw [this]
+        exact ih _ hc
+    | err e =>
+      have h1 : collectorAdd o c (.err e) = { c with err := some e } := by simp [collectorAdd, hc]
+      rw [h1]
+      exact collect_sticky o _ e rest rfl
+    | panic s =>
+      have h1 : collectorAdd o c (.panic s) = { c with err := some { reason := .other, msg := some s } } := by simp [collectorAdd, hc]
+      rw [h1]
+      exact collect_sticky o _ _ rest rfl
+    | fuel =>
+      have h1 : collectorAdd o c .fuel = { c with err := some { reason := .other, msg := some "fuel" } } := by simp [collectorAdd, hc]
+      rw [h1]
+      exact collect_sticky o _ _ rest rfl
+
+theorem flagSets_eq_collect (std : Stdlib) (o : Opts) (ab : Bool) (c : Collector) (args : List String) :
+    flagSets std o ab c args = collect o c (args.map (flagLoad std o ab)) := by
+  simp only [flagSets, collect, List.foldl_map]
+  rfl
+
+theorem fileSets_eq_collect (o : Opts) (c : Collector) (args : List FileArg) :
+    fileSets o c args = collect o c (args.map (fileLoad o)) := by
+  simp [fileSets, collect, List.foldl_map]
+
+/-- -flag key=value: after any sequence of arguments the flag holds the fold of the statement -/
+theorem flag_is_fold_of_merges (std : Stdlib) (o : Opts) (ab : Bool) (args : List String) :
+    flagSets std o ab { config := Val.empty, err := none } args =
+      { config := (specRun o Val.empty (args.map (flagLoad std o ab))).1,
+        err := (specRun o Val.empty (args.map (flagLoad std o ab))).2 } := by
+  rw [flagSets_eq_collect]; exact collect_eq_spec o _ _ rfl
+
+/-- file flags: the same, with the files' configs created by the flag's options -/
+theorem fileflag_is_fold_of_merges (o : Opts) (args : List FileArg) :
+    fileSets o { config := Val.empty, err := none } args =
+      { config := (specRun o Val.empty (args.map (fileLoad o))).1, err := (specRun o Val.empty (args.map (fileLoad o))).2 } := by
+  rw [fileSets_eq_collect]; exact collect_eq_spec o _ _ rfl
+
+/-- a file without a loader, a missing or a malformed file is recorded: it is the error from then on and nothing after it
+is merged -/
+theorem file_failure_recorded (o : Opts) (c : Collector) (later : List FileArg) (hc : c.err = none) :
+    ∃ e, (fileSets o c (.fail :: later)).err = some e ∧ (fileSets o c (.fail :: later)).config = c.config := by
+  refine ⟨{ reason := .other, typed := false }, ?_⟩
+  have h1 : collectorAdd o c (fileLoad o .fail) = { c with err := some { reason := .other, typed := false } } := by
+    simp [collectorAdd, hc, fileLoad, Outcome.raiseRaw]
+  have : fileSets o c (.fail :: later) = { c with err := some { reason := .other, typed := false } } := by
+    simp only [fileSets, List.foldl_cons]
+    rw [h1]
+    have := collect_sticky o { c with err := some { reason := .other, typed := false } } { reason := .other, typed := false } (later.map (fileLoad o)) rfl
+    simpa [collect, List.foldl_map] using this
+  rw [this]
+  exact ⟨rfl, rfl⟩
+
 /-! non-vacuity -/
 example : splitEq "a=" = ("a", some "") := by decide
 example : splitEq "ab" = ("ab", none) := by decide
